@@ -22,7 +22,7 @@ from vf import core
 
 IGNORE = [r"ignored\.test", r"^10\.9\.9\.9:"]
 ALLOW = [r"allowed\.test", r"^10\.7\.7\.7:"]
-NAME = {"I": "ignored.test", "A": "allowed.test", "N": "neutral.test", "B": "ignored.allowed.test"}
+NAME = {"I": "ignored.test", "A": "allowed.test", "N": "neutral.test", "B": "allowed.test.ignored.test"}
 IP = {"I": "10.9.9.9", "A": "10.7.7.7", "N": "10.1.1.1"}
 POST_C = (201, 202)
 POST_S = (211, 212, 213)
@@ -427,7 +427,9 @@ class Check(core.PropertyCheck):
         return {}
 
     def model_constants(self, tier):
-        return {"Cases": tuple(_model_case(c) for c in structured_cases(tier)), "PostC": POST_C, "PostS": POST_S}
+        return {"Cases": tuple(_model_case(c) for c in structured_cases(tier)), "PostC": POST_C, "PostS": POST_S,
+                # named deviations of the code (findings_proposed/C19.md A, B): set to False once repaired in /repo
+                "HostNeedsWs": True, "ReqLineNoWait": True}
 
     def model_runs(self, ctx):
         # generous timeout: the run takes ~10 s on an idle machine but the sandbox is shared
